@@ -120,8 +120,8 @@ class Scheduler(object):
             self.keepalive.append(obj)
         return m[k]
 
-    def track(self, fid, fut):
-        self.tracked.append([fid, fut, "PENDING"])
+    def track(self, fid, fut, ev="Observed", **extra):
+        self.tracked.append([fid, fut, "PENDING", ev, extra])
 
     def role(self, obj, name):
         self.roles[id(obj)] = name
@@ -138,6 +138,7 @@ class Scheduler(object):
             if st != ent[2]:
                 ent[2] = st
                 kw = {"f": ent[0], "s": st}
+                kw.update(ent[4])
                 if st == "FINISHED":
                     exc = getattr(fut, "_exception", None)
                     if exc is not None:
@@ -146,7 +147,7 @@ class Scheduler(object):
                     else:
                         kw["a"] = 0
                         kw["b"] = self.ident_val(getattr(fut, "_result", None))
-                self.emit("Observed", **kw)
+                self.emit(ent[3], **kw)
 
     def ident_val(self, v):
         # small ints are passed through as themselves + 1000 offset avoided: use explicit mapping
@@ -216,12 +217,12 @@ class Scheduler(object):
         return self._cond_kind(kind, obj, rec)
 
     def _cond_kind(self, kind, obj, rec):
-        if kind in ("start", "yield", "line", "user", "evset", "evclear", "cvnotify", "spawn"):
+        if kind in ("start", "yield", "line", "user", "evset", "evclear", "cvnotify", "spawn", "evwait_enter"):
             return True
         if kind == "acquire":
             return obj._can_acquire(rec)
         if kind == "evwait":
-            return obj._flag or rec.tid in obj._woken
+            return rec.tid in obj._woken
         if kind == "cvwait":
             return rec.tid in obj._notified
         if kind == "join":
@@ -483,13 +484,17 @@ class RLock(Lock):
 
 
 class Event(object):
-    """CPython semantics: set() wakes every *current* waiter, even if clear() follows before they run."""
+    """CPython semantics, two-phase: wait() first looks at the flag (a scheduling point: the thread has not
+    entered the wait yet and is NOT woken by a set() that a clear() overtakes); only if the flag is clear does
+    it register as a waiter and block.  set() wakes every *registered* waiter, even if clear() follows before
+    they run (they were notified on the condition), exactly like threading.Event."""
 
     def __init__(self):
         s = SCHED
         self._exec = s.exec_id if s else 0
         self._flag = False
         self._woken = set()
+        self._waiters = set()
         self.name = None
 
     def is_set(self):
@@ -502,11 +507,8 @@ class Event(object):
         if s is not None and s.me() is not None:
             s.point("evset", self)
         self._flag = True
-        s = SCHED
-        if s is not None and self._exec == s.exec_id:
-            for r in s.threads.values():
-                if r.state == "blocked" and r.op and r.op != "aborted" and r.op[0] == "evwait" and r.op[1] is self:
-                    self._woken.add(r.tid)
+        self._woken |= self._waiters
+        self._waiters.clear()
 
     def clear(self):
         s = _cur(self)
@@ -517,12 +519,17 @@ class Event(object):
     def wait(self, timeout=None):
         s = _cur(self)
         rec = s.me() if s else None
-        if rec is None:
+        if rec is None or rec.in_point:
             return self._flag
-        if rec.in_point:
-            return self._flag
-        s.point("evwait", self, timeout)
-        woke = self._flag or rec.tid in self._woken
+        s.point("evwait_enter", self)
+        if self._flag:
+            return True
+        self._waiters.add(rec.tid)
+        try:
+            s.point("evwait", self, timeout)
+        finally:
+            self._waiters.discard(rec.tid)
+        woke = rec.tid in self._woken
         self._woken.discard(rec.tid)
         return woke
 
